@@ -10,6 +10,8 @@ import (
 	"sort"
 	"strings"
 	"sync"
+	"testing/synctest"
+	"time"
 
 	"github.com/codelaboratoryltd/bng/pkg/allocator"
 	"github.com/codelaboratoryltd/bng/pkg/dhcp"
@@ -335,10 +337,17 @@ type distPool struct {
 	cfg   allocator.DistributedConfig
 	a     *allocator.DistributedAllocator
 	store *MemStore
+	mac   bool // drive the DHCP entry point AllocateWithMAC instead of Allocate
 }
 
 func (p *distPool) Alloc(sub string) (netip.Prefix, error) {
-	n, err := p.a.Allocate(bg, sub)
+	var n *net.IPNet
+	var err error
+	if p.mac {
+		n, err = p.a.AllocateWithMAC(bg, sub, macOf(sub))
+	} else {
+		n, err = p.a.Allocate(bg, sub)
+	}
 	if err != nil {
 		return netip.Prefix{}, exh(err)
 	}
@@ -427,7 +436,7 @@ func (p *distPool) Reload() (Pool, error) {
 	if err := loadOnly(a); err != nil {
 		return nil, err
 	}
-	return &distPool{cfg: p.cfg, a: a, store: ns}, nil
+	return &distPool{cfg: p.cfg, a: a, store: ns, mac: p.mac}, nil
 }
 
 // loadOnly runs Start with an already-cancelled context so that no epoch ticker goroutine lingers.
@@ -440,6 +449,15 @@ func loadOnly(a *allocator.DistributedAllocator) error {
 
 // Distributed returns a spec for DistributedAllocator in session or lease mode over a harness store.
 func Distributed(cidr string, unit int, lease bool, grace int) *Spec {
+	return distributed(cidr, unit, lease, grace, false)
+}
+
+// DistributedMAC is Distributed driven through AllocateWithMAC (the entry point the DHCP server uses).
+func DistributedMAC(cidr string, unit int, lease bool, grace int) *Spec {
+	return distributed(cidr, unit, lease, grace, true)
+}
+
+func distributed(cidr string, unit int, lease bool, grace int, mac bool) *Spec {
 	r := netip.MustParsePrefix(cidr)
 	n := unit - r.Bits()
 	mode := allocator.PoolModeSession
@@ -457,6 +475,9 @@ func Distributed(cidr string, unit int, lease bool, grace int) *Spec {
 	} else {
 		grace = 0
 	}
+	if mac {
+		name += "+mac"
+	}
 	cfg := allocator.DistributedConfig{PoolID: "p1", BaseNetwork: cidr, PrefixLen: unit, Mode: mode, EpochGrace: grace}
 	return &Spec{Impl: name, Geom: fmt.Sprintf("%s→/%d grace=%d", cidr, unit, grace), Range: r.Masked(), UnitBits: unit, Usable: usable, Excluded: excl, Grace: grace, Concurrent: true,
 		New: func() (Pool, error) {
@@ -468,12 +489,82 @@ func Distributed(cidr string, unit int, lease bool, grace int) *Spec {
 			if err := loadOnly(a); err != nil {
 				return nil, err
 			}
-			dp := distPool{cfg: cfg, a: a, store: st}
+			dp := distPool{cfg: cfg, a: a, store: st, mac: mac}
 			if lease {
 				return &distLeasePool{cfg: cfg, a: a, store: st, in: dp}, nil
 			}
 			return &dp, nil
 		}}
+}
+
+// ---------------------------------------------------------------- DistributedAllocator with its own epoch ticker
+
+// distTickerPool is the lease-mode DistributedAllocator as deployed: Start() is given a live context so
+// the allocator's own epochLoop (epoch advance + cleanupExpiredFromStore) runs, and the store echoes
+// every successful local write to the watchers (nexus.MemoryStore and the CLSet stores do), delivered
+// once the operation that caused it has returned. It must be created and used inside a
+// testing/synctest bubble: AdvanceEpoch sleeps one virtual epoch period.
+type distTickerPool struct {
+	distLeasePool
+	cancel  context.CancelFunc
+	period  time.Duration
+	pending []Change
+}
+
+func (p *distTickerPool) settle() {
+	for {
+		p.store.mu.Lock()
+		if len(p.pending) == 0 {
+			p.store.mu.Unlock()
+			return
+		}
+		c := p.pending[0]
+		p.pending = p.pending[1:]
+		p.store.mu.Unlock()
+		p.store.Announce(c.Key, c.Value, c.Deleted)
+	}
+}
+func (p *distTickerPool) AdvanceEpoch() {
+	time.Sleep(p.period)
+	synctest.Wait()
+	p.settle()
+}
+func (p *distTickerPool) Alloc(sub string) (netip.Prefix, error) {
+	v, err := p.in.Alloc(sub)
+	p.settle()
+	return v, err
+}
+func (p *distTickerPool) Release(sub string) error { err := p.in.Release(sub); p.settle(); return err }
+func (p *distTickerPool) Renew(sub string) error   { err := p.in.Renew(sub); p.settle(); return err }
+func (p *distTickerPool) stop()                    { p.cancel(); synctest.Wait() }
+
+// DistributedTicker returns the lease-mode spec whose epochs are advanced by the allocator's own ticker.
+// Bubble is set: histories must run inside synctest.Test.
+func DistributedTicker(cidr string, unit int, grace int, mac bool) *Spec {
+	s := distributed(cidr, unit, true, grace, mac)
+	s.Impl += "+ticker"
+	s.Concurrent = false
+	s.Bubble = true
+	s.Caps = &Caps{Renew: true, Epoch: true, Fault: true}
+	period := time.Hour
+	cfg := allocator.DistributedConfig{PoolID: "p1", BaseNetwork: cidr, PrefixLen: unit, Mode: allocator.PoolModeLease, EpochGrace: grace, EpochPeriod: period}
+	s.New = func() (Pool, error) {
+		st := NewMemStore()
+		a, err := allocator.NewDistributedAllocator(cfg, st)
+		if err != nil {
+			return nil, err
+		}
+		ctx, cancel := context.WithCancel(context.Background())
+		if err := a.Start(ctx); err != nil {
+			cancel()
+			return nil, err
+		}
+		tp := &distTickerPool{cancel: cancel, period: period}
+		tp.distLeasePool = distLeasePool{cfg: cfg, a: a, store: st, in: distPool{cfg: cfg, a: a, store: st, mac: mac}}
+		st.Pending = &tp.pending
+		return tp, nil
+	}
+	return s
 }
 
 // ---------------------------------------------------------------- PoolAllocator + MemoryAllocationStore
@@ -984,6 +1075,9 @@ func Nexus(cidr string) *Spec {
 func Close(p Pool) {
 	if np, ok := p.(*nexusPool); ok {
 		np.c.Stop()
+	}
+	if tp, ok := p.(*distTickerPool); ok {
+		tp.stop()
 	}
 }
 
